@@ -141,20 +141,22 @@ pub fn dir_created(name: &str) -> bool {
 }
 
 // ---------------------------------------------------------------- std::fs look-alikes
-pub struct File { slot: usize, patch: bool, pos: Cell<u64>, writable: bool }
+// plain integer fields only: a `bool` would offer a niche, `io::Result<File>` would then keep its discriminant inside
+// the File, and after `File::open(..)?` CBMC no longer sees the flags as constants
+pub struct File { slot: usize, patch: usize, pos: Cell<u64>, writable: usize }
 
 impl File {
     pub fn open<P: AsRef<Path>>(p: P) -> io::Result<File> {
         let b = path_bytes(p.as_ref());
-        if is_patch(b) { return Ok(File { slot: 0, patch: true, pos: Cell::new(0), writable: false }); }
-        match lookup(b) { Some(slot) => Ok(File { slot, patch: false, pos: Cell::new(0), writable: false }), None => Err(not_found()) }
+        if is_patch(b) { return Ok(File { slot: 0, patch: 1, pos: Cell::new(0), writable: 0 }); }
+        match lookup(b) { Some(slot) => Ok(File { slot, patch: 0, pos: Cell::new(0), writable: 0 }), None => Err(not_found()) }
     }
     pub fn create<P: AsRef<Path>>(p: P) -> io::Result<File> {
         OpenOptions::new().write(true).create(true).truncate(true).open(p)
     }
     pub fn set_len(&self, n: u64) -> io::Result<()> {
         let s = fs();
-        if self.patch || !self.writable { return Err(io::Error::from(io::ErrorKind::PermissionDenied)); }
+        if self.patch != 0 || self.writable == 0 { return Err(io::Error::from(io::ErrorKind::PermissionDenied)); }
         let n = n as usize;
         if n > FCAP { s.limit_hit = true; return Err(io::Error::from(io::ErrorKind::Other)); }
         let mut i = 0;
@@ -166,14 +168,14 @@ impl File {
     fn do_read(&self, buf: &mut [u8]) -> usize {
         let s = fs();
         let p = self.pos.get() as usize;
-        let total = if self.patch { s.patch_len } else { s.len[self.slot] };
+        let total = if self.patch != 0 { s.patch_len } else { s.len[self.slot] };
         let avail = if p < total { total - p } else { 0 };
         let n = if buf.len() < avail { buf.len() } else { avail };
         // bounded by the (concrete) request size rather than by `n`: after binrw's try-a-variant-and-rewind
         // the position can be an if-then-else term, and a loop bounded by it would unroll to the unwind limit
         let mut i = 0;
         while i < buf.len() {
-            if i < n { buf[i] = if self.patch { s.patch[p + i] } else { s.data[self.slot][p + i] }; }
+            if i < n { buf[i] = if self.patch != 0 { s.patch[p + i] } else { s.data[self.slot][p + i] }; }
             i += 1;
         }
         self.pos.set((p + n) as u64);
@@ -181,7 +183,7 @@ impl File {
     }
     fn do_write(&self, buf: &[u8]) -> io::Result<usize> {
         let s = fs();
-        if self.patch || !self.writable { return Err(io::Error::from(io::ErrorKind::PermissionDenied)); }
+        if self.patch != 0 || self.writable == 0 { return Err(io::Error::from(io::ErrorKind::PermissionDenied)); }
         let p = self.pos.get() as usize;
         if p > FCAP || buf.len() > FCAP - p { s.limit_hit = true; return Err(io::Error::from(io::ErrorKind::Other)); }
         // sparse-file semantics: a gap between the old end and the write position reads as zeros
@@ -199,7 +201,7 @@ impl File {
     }
     fn do_seek(&self, to: SeekFrom) -> io::Result<u64> {
         let s = fs();
-        let total = if self.patch { s.patch_len } else { s.len[self.slot] } as i64;
+        let total = if self.patch != 0 { s.patch_len } else { s.len[self.slot] } as i64;
         let np = match to {
             SeekFrom::Start(x) => x as i64,
             SeekFrom::Current(d) => self.pos.get() as i64 + d,
@@ -232,7 +234,7 @@ impl OpenOptions {
     pub fn truncate(&mut self, v: bool) -> &mut Self { self.t = v; self }
     pub fn open<P: AsRef<Path>>(&self, p: P) -> io::Result<File> {
         let b = path_bytes(p.as_ref());
-        if is_patch(b) { return Ok(File { slot: 0, patch: true, pos: Cell::new(0), writable: false }); }
+        if is_patch(b) { return Ok(File { slot: 0, patch: 1, pos: Cell::new(0), writable: 0 }); }
         let slot = match lookup(b) {
             Some(s) => s,
             None => {
@@ -241,7 +243,7 @@ impl OpenOptions {
             }
         };
         if self.t && self.w { fs().len[slot] = 0; fs().mutations += 1; }
-        Ok(File { slot, patch: false, pos: Cell::new(0), writable: self.w })
+        Ok(File { slot, patch: 0, pos: Cell::new(0), writable: self.w as usize })
     }
 }
 
